@@ -327,7 +327,7 @@ ObsFails(C, E, n, m, ls, ln) ==
   IN IF k < 1 \/ k > n THEN {"S.bad_prefix_length"}
      ELSE IF SameInstantChain(E, A) THEN {"S.same_instant_transfer_chain_not_judged"}
      ELSE IF ln.status # "ok" THEN
-       LET negAny == Ledger(E, A, MaxDay, 0).neg
+       LET negAny == Ledger(E, A, to, 0).neg      \* (a run limited by a to-date replays the accounts up to that date only)
        IN Failing({
             <<"C02.covered_history_not_rejected", ln.status \in {"lots", "other"} => ~covered>>,
             <<"C08.no_rejection_without_overdraft", ln.status = "balance" => (negAny # {} /\ ~ln.neg)>>,
